@@ -2,7 +2,7 @@
 # re-confirm every seeded change against the current /repo HEAD and run the owning check(s)
 cd /verif
 run() { tools/seedtest.py "$@" 2>&1 | grep -v conda; }
-S=/tmp/seedout; T=/tmp/seed
+S=/tmp/seedout; T=/tmp/seedout
 run $S/C01/out/1 C01-1 C01; run $S/C01/out/2 C01-2 C01,C03
 run $S/C02/out/1 C02-1 C02; run $S/C02/out/2 C02-2 C02
 run $S/C03/out/1 C03-1 C03; run $S/C03/out/2 C03-2 C03,C18
